@@ -64,6 +64,10 @@ def step' (s : St) (toks : List String) : St × List String :=
   | ["d-apply", ents] => match parseEnts ents with
     | some l => if entsMatch l s.rest then plain (step s (.dApply l.length)) else (s, ["bad-op"])
     | none => (s, ["bad-op"])
+  | ["d-buf", m] => match m.toNat? with
+    | some m => plain (step s (.dApplyBuf m))
+    | none => (s, ["bad-op"])
+  | ["view"] => plain (step s .view)
   | ["d-skip", n] => match n.toNat? with
     | some n => plain (step s (.dSkip n))
     | none => (s, ["bad-op"])
